@@ -440,6 +440,11 @@ extern "C" void vf_setup()
                           "string: size, room, c_str, begin..end == reference clipped to N",
                           "string: constructor input of every length 0..2N: prefix kept, excess dropped"})
         vf::require(c);
+    for (const char *c : {"an element constructor threw inside the operation",
+                          "after a throwing element constructor: exposed elements are live objects, live == size(), size() <= N"})
+        vf::require(c);
+    if (c14::has_range_ctor<SV, int>)
+        vf::require("range constructor driven by a single-pass input iterator");
     if (c14::has_split<SS>)
         vf::require("string: split<V,S> keeps the first V tokens, each clipped to S");
     (void)sizeof(SV);
